@@ -1219,18 +1219,28 @@ def _run(ctx):
                         'binary64 arithmetic is exact on the generated dyadic coefficients (results are compared exactly)',
                         'numpy/scipy reference linear algebra for the matrix-level oracles (tolerance 1e-8; 1e-6 / 2e-4 for expectation values in complex128 / complex64)',
                         'conjugation, rotations and expectation values are compared with references on generated inputs, not proved']
-    err = tables.regenerate(['PauliTables'])
+    import time
+    phases = ctx.cov.setdefault('phase_seconds', {})
+
+    def timed(name, f, *args):
+        t0 = time.time()
+        r = f(*args)
+        phases[name] = round(phases.get(name, 0) + time.time() - t0, 1)
+        return r
+
+    err = timed('tables', tables.regenerate, ['PauliTables'])
     if err['PauliTables']:
         mark_broken(ctx, 'table:PauliTables', err['PauliTables'])
-    ctx.set_obligations(coq.compile_props('C14'))
+    # includes waiting for the shared build lock when other checks are building
+    ctx.set_obligations(timed('proofs (make + coqc Props/C14.v, incl. waiting for the shared build lock)', coq.compile_props, 'C14'))
     quick = ctx.tier == 'quick'
-    stream_mul_exhaustive(ctx, ad, [1, 2, 3], [1, 2] if quick else [1, 2, 3])
-    stream_ps_random(ctx, ad, 300 if quick else 4000)
-    stream_dense(ctx, ad, 300 if quick else 4000, [1, 2] if quick else [1, 2, 3])
-    stream_sums(ctx, ad, 300 if quick else 4000)
-    stream_conjugation(ctx, ad, 300 if quick else 4000, not quick)
-    stream_rotations(ctx, ad, 200 if quick else 2500)
-    stream_expectation(ctx, ad, 200 if quick else 2500)
+    timed('products exhaustive', stream_mul_exhaustive, ctx, ad, [1, 2, 3], [1, 2] if quick else [1, 2, 3])
+    timed('strings random', stream_ps_random, ctx, ad, 300 if quick else 4000)
+    timed('dense', stream_dense, ctx, ad, 300 if quick else 4000, [1, 2] if quick else [1, 2, 3])
+    timed('sums', stream_sums, ctx, ad, 300 if quick else 4000)
+    timed('conjugation', stream_conjugation, ctx, ad, 300 if quick else 4000, not quick)
+    timed('rotations', stream_rotations, ctx, ad, 200 if quick else 2500)
+    timed('expectation', stream_expectation, ctx, ad, 200 if quick else 2500)
 
 
 def replay(ctx, data):
